@@ -229,7 +229,14 @@ def run(ck):
     ck.extra["functions_scanned"] = scanned
     ck.floor("C07 functions scanned", scanned, 150)
     ck.floor("C07.G1 unpacked zip(*xs) sites", g1, 1)
-    ck.floor("C07.G2 apply().tolist() sites in readers", g2, 2)
+    ck.floor("C07.G2 apply().tolist() sites in readers", g2, 1)
+    # the XMAP reader entry point must have been looked at (with or without the idiom)
+    ra = p.find_method("XmapReader", "readAlignments")
+    if not any(o.rule == "C07.G2" and o.construct == short(ra) for o in ck.obligations):
+        rets = [pa for pa in explore(ck, ra, unroll=(0, 1)) if pa.outcome == "return"]
+        ck.floor("C07.G2 return paths of XmapReader.readAlignments", len(rets), 1)
+        ck.ok("C07.G2", short(ra), ra.where, "no DataFrame.apply(...).tolist() chain on any return path "
+              f"({len(rets)} paths): an empty frame cannot reach tolist()")
     ck.floor("C07.G3 identity-free reductions judged", g3, 6)
 
     # ---- positive reference instances for G3: these four carry their identity today
